@@ -177,6 +177,16 @@ def build_sim_world(d, seed, variant):
 SHIPPED_SMALL = ["nudt15", "cyp2c19", "tpmt", "cyp3a5", "cyp2b6", "cyp2c9", "cyp2w1"]
 
 
+def build_real_world():
+    """The repo's own test sample: CYP2D6 on NA10860.bam with the shipped illumina profile (hg19)."""
+    from . import genes as G
+
+    res = os.path.join(aldyenv.ALDY_SRC, "aldy/tests/resources")
+    return {"kind": "real", "seed": 0, "genome": "hg19", "cn_region": None, "profile_bam": "illumina", "user_cn": ["1", "1"],
+            "genes": {"A": {"yml": os.path.join(G.genes_dir(), "cyp2d6.yml"), "db": "cyp2d6", "name": "CYP2D6", "genome": "hg19"}},
+            "samples": {"s1": {"bam": os.path.join(res, "NA10860.bam")}}}
+
+
 def build_syn_world(seed, shipped="nudt15"):
     from . import genes as G
 
@@ -345,12 +355,12 @@ class World:
         if g in self.cov:
             return self.cov[g]
         gene = self.ensure_gene(g)
-        if self.spec["kind"] == "sim":
+        if self.spec["kind"] in ("sim", "real"):
             from aldy.common import GRange
             from aldy.profile import Profile
             from aldy.sam import Sample
 
-            prof = Profile.load(gene, self.spec["profile_bam"], GRange(*self.spec["cn_region"]))
+            prof = Profile.load(gene, self.spec["profile_bam"], GRange(*self.spec["cn_region"]) if self.spec.get("cn_region") else None)
             with aldyenv.quiet_stderr():
                 sample = Sample(gene, prof, self.spec["samples"]["s1"]["bam"])
             self.cov[g] = sample.coverage
@@ -447,9 +457,11 @@ class World:
         from . import pipeline
 
         sp = self.spec
-        assert sp["kind"] == "sim", "Genotype needs a simulated sample"
-        paths = ",".join(sp["genes"][g]["yml"] for g in gs)
-        kw = dict(cn_region=GRange(*sp["cn_region"]), genome=sp["genome"])
+        assert sp["kind"] in ("sim", "real"), "Genotype needs a sample file"
+        paths = ",".join(sp["genes"][g].get("db", sp["genes"][g]["yml"]) for g in gs)
+        kw = dict(genome=sp["genome"])
+        if sp.get("cn_region"):
+            kw["cn_region"] = GRange(*sp["cn_region"])
         profile = sp["profile_bam"]
         if mode == "cn":
             kw["cn_solution"] = list(sp["user_cn"])
